@@ -148,15 +148,12 @@ class GridTranslator(pyrx.ClassTranslator):
         env = pyrx.Env()
         for p in params:
             env.v[p] = p
-        lines = []
         notes = []
         self.svar = "(params c)"
         try:
-            for st in fn.body:
-                lines += self._op_stmt(st, env, name, notes, super_init)
+            body = self._op_block(list(fn.body), env, name, notes, super_init)
         finally:
             self.svar = "s"
-        body = "\n  ".join(lines + ["c"])
         used = [p for p in params if pyrx._mentions_word(body, p)]
         cn = coq_name or self.an(name)
         self.ops[name] = used
@@ -169,6 +166,90 @@ class GridTranslator(pyrx.ClassTranslator):
 
     def _upd(self, fun):
         return "let c := upd_params (fun s => %s) c in" % fun
+
+    def _bool(self, node, env):
+        """Coq bool for a python condition (comparisons of reals, and/or/not, bool locals)"""
+        if isinstance(node, ast.Name) and (node.id, "bool") in env.v:
+            return env.v[(node.id, "bool")]
+        if isinstance(node, ast.BoolOp):
+            parts = [self._bool(v, env) for v in node.values]
+            f = "andb" if isinstance(node.op, ast.And) else "orb"
+            t = parts[0]
+            for q in parts[1:]:
+                t = "(%s %s %s)" % (f, t, q)
+            return t
+        if isinstance(node, ast.UnaryOp) and isinstance(node.op, ast.Not):
+            return "(negb %s)" % self._bool(node.operand, env)
+        if isinstance(node, ast.Compare):
+            if len(node.ops) == 1:
+                return "(if %s then true else false)" % self.test(node, env)
+            return self.test(node, env)
+        raise TranslateError("condition %s (line %d)" % (ast.unparse(node)[:60], node.lineno))
+
+    def _array(self, node, env):
+        """list R for an expression over the cached arrays: self.<array>, array +-*/ scalar,
+        scalar +* array (numpy broadcasting of a scalar)"""
+        a = self._self_attr(node)
+        if a is not None and a in PHYS + JAC + COMPACT:
+            return "(%s c)" % a
+        if isinstance(node, ast.BinOp):
+            op = {ast.Add: "+", ast.Sub: "-", ast.Mult: "*", ast.Div: "/"}.get(type(node.op))
+            if op is None:
+                raise TranslateError("array operator (line %d)" % node.lineno)
+            for arr, sc, left in ((node.left, node.right, True), (node.right, node.left, False)):
+                try:
+                    la = self._array(arr, env)
+                except TranslateError:
+                    continue
+                k = self.expr(sc, env)
+                if left:
+                    return "(map (fun v : R => v %s %s) %s)" % (op, k, la)
+                if op in "+*":
+                    return "(map (fun v : R => %s %s v) %s)" % (k, op, la)
+                if op == "-":
+                    return "(map (fun v : R => %s - v) %s)" % (k, la)
+        raise TranslateError("array expression %s (line %d)" % (ast.unparse(node)[:60],
+                                                                getattr(node, "lineno", 0)))
+
+    def _op_block(self, stmts, env, mname, notes, super_init):
+        """Coq term of type cache for a statement list (falling off the end returns c)"""
+        if not stmts:
+            return "c"
+        st, rest = stmts[0], stmts[1:]
+        if isinstance(st, ast.Return):
+            if st.value is not None and not (isinstance(st.value, ast.Constant)
+                                             and st.value.value is None):
+                raise TranslateError("%s returns a value (line %d)" % (mname, st.lineno))
+            return "c"
+        if isinstance(st, ast.If) and not (mname == "__init__" and any(
+                self._self_attr(n) == "spacing" for n in ast.walk(st.test))):
+            cond = self._bool(st.test, env)
+            a = self._op_block(list(st.body) + rest, env.copy(), mname, notes, super_init)
+            b = self._op_block(list(st.orelse) + rest, env.copy(), mname, notes, super_init)
+            return "if %s\n  then (%s)\n  else (%s)" % (cond, a, b)
+        if isinstance(st, ast.Assign) and len(st.targets) == 1 and \
+                isinstance(st.targets[0], ast.Name):
+            nm = self.newname(st.targets[0].id)
+            env2 = env.copy()
+            if isinstance(st.value, (ast.Compare, ast.BoolOp)) or (
+                    isinstance(st.value, ast.UnaryOp) and isinstance(st.value.op, ast.Not)):
+                val = self._bool(st.value, env)
+                env2.v[(st.targets[0].id, "bool")] = nm
+                env2.v.pop(st.targets[0].id, None)
+            else:
+                val = self.expr(st.value, env)
+                env2.v[st.targets[0].id] = nm
+                env2.v.pop((st.targets[0].id, "bool"), None)
+            return "let %s := %s in\n  %s" % (nm, val, self._op_block(
+                rest, env2, mname, notes, super_init))
+        if isinstance(st, ast.Assign) and len(st.targets) == 1 and \
+                self._self_attr(st.targets[0]) in PHYS + JAC:
+            a = self._self_attr(st.targets[0])
+            return "let c := set_%s %s c in\n  %s" % (a, self._array(st.value, env),
+                                                     self._op_block(rest, env, mname, notes,
+                                                                    super_init))
+        lines = self._op_stmt(st, env, mname, notes, super_init)
+        return "\n  ".join(lines + [self._op_block(rest, env, mname, notes, super_init)])
 
     def _op_stmt(self, st, env, mname, notes, super_init):
         px = self.prefix
